@@ -74,4 +74,14 @@ PROPS = {
         "assumptions": ["finite a, b", "torn file = prefix of the complete file"],
         "theorems": ["PMH.C20.prefix_rejected", "PMH.C20.parse_serialize"],
     },
+    "C02": {
+        "module": "PMH.Props.C02",
+        "level_text": "full in exact arithmetic: branch-for-branch models of ProbMinHash3::hash_item, the two-pass ProbMinHash3a/3aSha batch (first pass + rounds with in-place compaction) and ProbMinHash2::hash_item (lazy Fisher-Yates slots, betas, the i<m assert) are proved to REFINE the one-line specification 'position p holds the minimum over all points of all inserted pairs that land on p' (run_spec / run2_spec, by loop invariants: every pruned point is dominated because the tracker maximum bounds every register and the item's stream is monotone). Corollaries, each a theorem: registers are a function of the SET of (item,weight) pairs for any order, entry point, batching and repetition; signatures too under TieFree; ProbMinHash3 = ProbMinHash3a; re-insertion idempotent; scaling all weights by c>0 leaves populated positions unchanged; a position reached below the ceiling holds an inserted item (no placeholder / foreign item); union position = A's or B's and register = min. The executable models (own Xoshiro256++, ExpRestricted01, Uniform<usize>, Exp1 ziggurat) agree bit-for-bit with the real sketchers (signature AND registers) through hash_item / hash_wset / IndexMap / HashMap, 1-4 batches, FNV / NoHash / Sha512_256 seeds, six weight classes incl. 1e-290..1e300.",
+        "level_note": "trusted: Lean kernel, Mathlib; model + correspondence; theorems assume exact arithmetic (ordered field), a total 'nice' per-item generator (samples in [0,1), positions < m) and histories that returned (fuel); IEEE overflow of race values for weights <= 1e-306 is outside (open known finding F9); hashers (FNV, Sha512_256) external",
+        "rule": "weighted sets: n in {1,2,3,5,17,64,300(,2000)} x m in {2,3,4,7,16,64(,257,1024)} x 6 weight classes (equal, uniform, log-uniform 1e+-12, powers of two, one huge + many tiny, 1e-290..1e300); for each: variant 3 item-wise (FNV, NoHash), hash_wset, IndexMap, HashMap; 3a with 1-4 batches (IndexMap, HashMap); 3aSha; variant 2; signature and registers compared with the model; implementation-only oracles: permutation, re-insertion, 3 vs 3a, 2^k scaling, union, no placeholder; non-trivial = n>1; distinct = distinct op sequence",
+        "trusted_base": TB_COMMON + ["exact arithmetic replaces IEEE in every theorem", "hashers FNV / NoHash / Sha512_256 (external; the harness calls the same crates)"],
+        "not_mechanised": ["IEEE rounding/overflow (F9 open: weights <= 1e-306)", "termination (fuel): 'run returned' is a hypothesis; ProbMinHash2 assert!(i<m) never fires - not yet a theorem (returns error in the model, never observed)"],
+        "assumptions": ["weights > 0", "per-item generator total and nice (C16 proves the range for the ExpRestricted01 model)"],
+        "theorems": ["PMH.C02.run_spec", "PMH.C02.signature_function_of_set", "PMH.C02.pmh3_eq_pmh3a", "PMH.C02.reinsert_idempotent", "PMH.C02.holds_inserted_item", "PMH.C02.union_position", "PMH.C02.scale_invariant", "PMH.C02.run2_spec", "PMH.C02.pmh2_function_of_set"],
+    },
 }
